@@ -57,6 +57,12 @@ func (fr *Frame) call(x *ssa.Call, c *ssa.CallCommon, h Heap) Heap {
 		if nh, ok := fr.intrinsic(key, callee, c, args, resT, setRes, h, name); ok {
 			return nh
 		}
+		if kind := rangeCallKind(key); kind != "" {
+			if nh, ok := fr.rangeCall(kind, callee, x, c, args, h); ok {
+				setRes(&Val{})
+				return nh
+			}
+		}
 		fc = g.P.contractFor(callee)
 	} else if c.IsInvoke() {
 		key = "iface " + types.TypeString(c.Value.Type(), nil) + "." + c.Method.Name()
@@ -208,6 +214,9 @@ func (fr *Frame) callModNames(ci ssa.CallInstruction) ([]string, bool) {
 			return nil, false
 		case "delete":
 			return fr.mapHeapNames(c.Args[0].Type()), false
+		case "close":
+			cn, _ := g.closedName()
+			return []string{cn}, false
 		}
 		return nil, false
 	}
@@ -217,6 +226,11 @@ func (fr *Frame) callModNames(ci ssa.CallInstruction) ([]string, bool) {
 		key := callee.String()
 		if names, ok := intrinsicMods(g, key, c); ok {
 			return names, false
+		}
+		if rangeCallKind(calleeKey(callee)) != "" && len(c.Args) >= 2 {
+			if fn, _ := closureOf(c.Args[len(c.Args)-1]); fn != nil && len(fn.Blocks) > 0 {
+				return fr.bodyModNames(fn, 1)
+			}
 		}
 		fc = g.P.contractFor(callee)
 		if fc == nil && g.P.autoInline(callee) && len(callee.Blocks) > 0 {
@@ -347,6 +361,9 @@ func (fr *Frame) builtin(b *ssa.Builtin, c *ssa.CallCommon, resT types.Type, set
 		return fr.copyOp(c, setRes, h, name)
 	case "delete":
 		mt := c.Args[0].Type().Underlying().(*types.Map)
+		if fr.curInstr != nil {
+			fr.guardedUse(c.Args[0], h, true, "map delete", fr.curInstr)
+		}
 		return fr.mapDelete(h, mt, arg(0).T, arg(1).T)
 	case "recover":
 		// on the normal path recover() returns nil; in the recover block anything
@@ -359,8 +376,16 @@ func (fr *Frame) builtin(b *ssa.Builtin, c *ssa.CallCommon, resT types.Type, set
 			setRes(&Val{T: "(mk_iface 0 0)"})
 		}
 		return h
-	case "print", "println", "close":
+	case "print", "println":
 		return h
+	case "close":
+		ch := arg(0).T
+		fr.oblig("nil", "safety", "", fmt.Sprintf("(not (= %s 0))", ch), "close of nil channel", c.Pos())
+		cn, cs := g.closedName()
+		cur := g.heapArr(h, cn, cs)
+		nh := h.clone()
+		nh[cn] = g.define(cn, cs, fmt.Sprintf("(store %s %s %s)", cur, ch, g.iadd(fmt.Sprintf("(select %s %s)", cur, ch), g.ilit(1))))
+		return nh
 	case "min", "max":
 		t := c.Args[0].Type()
 		_, signed, ok := intInfo(t)
@@ -544,6 +569,9 @@ func intrinsicMods(g *Gen, key string, c *ssa.CallCommon) ([]string, bool) {
 			return ns, true
 		}
 	}
+	if _, ok := isMutexOp(key); ok {
+		return lockArrNames(g), true
+	}
 	if strings.HasPrefix(key, "(*sync.Mutex).") || strings.HasPrefix(key, "(*sync.RWMutex).") {
 		return nil, true
 	}
@@ -612,9 +640,11 @@ func (fr *Frame) intrinsic(key string, callee *ssa.Function, c *ssa.CallCommon, 
 			return done(nh, &Val{T: ok}, types.Typ[types.Bool])
 		}
 	}
+	if op, ok := isMutexOp(key); ok {
+		return fr.lockOp(op, fr.argTerm(args[0]), h), true
+	}
 	switch key {
-	case "(*sync.Mutex).Lock", "(*sync.Mutex).Unlock", "(*sync.RWMutex).Lock", "(*sync.RWMutex).Unlock", "(*sync.RWMutex).RLock", "(*sync.RWMutex).RUnlock",
-		"(*sync.WaitGroup).Add", "(*sync.WaitGroup).Done", "runtime.Gosched", "(*sync.Once).Do#skip":
+	case "(*sync.WaitGroup).Add", "(*sync.WaitGroup).Done", "runtime.Gosched", "(*sync.Once).Do#skip":
 		return h, true
 	case "math.Float64bits", "math.Float32bits", "math.Float64frombits", "math.Float32frombits":
 		setRes(&Val{T: args[0].T})
